@@ -81,8 +81,10 @@ def make_recipes(seed, n_random):
         listed = [n for n in names if rng.random() < 0.5 and not ("X" in names and n in "xX")]
         rng.shuffle(listed)
         allvars = listed + [n for n in names if n not in listed]
+        # the listed variables come in any collection a caller may reasonably hand over
+        varkind = rng.choice(["list", "list", "tuple", "dictkeys", "generator", "iter", "set", "frozenset"])
         recipes.append({"id": f"c{j}", "kind": "compiled", "src": G.src(e), "vars": listed,
-                        "allvars": allvars, "nontrivial": True})
+                        "varkind": varkind, "allvars": allvars, "nontrivial": True})
     return recipes
 
 
